@@ -603,6 +603,83 @@ def _model_group(ctx, spec, g, path, ct, reqs, pending, case):
                 stv, v = _try(ms.get_values, n)
                 pending.append((dict(case, what='decodeMeas', measurement=j),
                                 ('ok', [None if np.isnan(x) else t for x, t in zip(v, _tok(v))]) if stv == 'ok' else ('err', _kind(v))))
+                # repeated reads of ONE item with different arguments (n, n + 2, n - 1, n again), writing into every array
+                # that came back: each answer must be what a first read with that argument gives (no memo, no aliasing)
+                if j < len(spec['meas']) and (ctx.evaluations + j) % 3 == 0:
+                    v32 = np.asarray(spec['meas'][j]['values']).astype(np.float32)
+                    present = np.where(~np.isnan(v32))[0]
+                    for step, m in enumerate((n, n + 2, max(n - 1, 0), n)):
+                        stv, v = _try(ms.get_values, m)
+                        if len(present) == len(v32):
+                            want = v32 if m == n else None
+                        elif len(present) and present.max() >= m:
+                            want = None
+                        else:
+                            want = np.full(m, np.nan, np.float32)
+                            want[present] = v32[present]
+                        ctx.case(path=path + '/meas-history', meas_history_arg=('n', 'n+2', 'n-1', 'n again')[step],
+                                 meas_history_expect=('refused' if want is None else 'values'))
+                        if (stv == 'ok') != (want is not None) or (want is not None and not _same(v, want)):
+                            ctx.fail(dict(case, what='meas-history', measurement=j, step=step, n_arg=m),
+                                     f'get_values({m}) as call {step + 1} on one Measurements item of {n} annotations: '
+                                     f'{"values" if stv == "ok" else v}, a first read gives {"a refusal" if want is None else "other values"}',
+                                     site=f'meas-history/{path}')
+                        reqs.append(('decodeMeas', {'values': _tok(np.frombuffer(_buf(it.FloatingPointValues), '<f4')),
+                                                    'indices': np.frombuffer(_buf(it.AnnotationIndexList), '<i4').tolist() if 'AnnotationIndexList' in it else None,
+                                                    'n': m}))
+                        pending.append((dict(case, what='decodeMeas', measurement=j, step=step),
+                                        ('ok', [None if np.isnan(x) else t for x, t in zip(v, _tok(v))]) if stv == 'ok' else ('err', _kind(v))))
+                        if stv == 'ok' and len(v) and v.flags.writeable:
+                            v[:] = np.float32(-12345.0)
+
+
+# ------------------------------------------------------------------ interleaved reads of the groups of one instance
+def _instance_history(ctx, specs, inst, ct, base, r, reqs, pending):
+    """inst: a freshly parsed instance nobody has read yet.  Whole-group and per-annotation accesses to its groups in a random
+    interleaving, own and other coordinate type: every answer must be what the stored input says (the other type: refused),
+    whatever was read before from this or from another group."""
+    groups = list(inst.AnnotationGroupSequence)
+    if len(groups) != len(specs):
+        return
+    svs = []
+    for g in groups:
+        st, sv = _try(_stored_view, g)
+        if st != 'ok':
+            return
+        svs.append(sv)
+    other = '3D' if ct == '2D' else '2D'
+    accs, impl = [], []
+    bad = None
+    for step in range(r.choice([4, 8, 12])):
+        gi = r.randrange(len(groups))
+        want, _ = _expected_arrays(specs[gi])
+        n = len(want)
+        act = other if r.random() < 0.2 else ct
+        g = groups[gi] if r.random() < 0.5 else inst.get_annotation_group(number=specs[gi]['number'])
+        if r.random() < 0.4:
+            accs.append([gi, 'whole', act])
+            st, res = _try(g.get_graphic_data, act)
+            good = (st != 'ok') if act != ct else (st == 'ok' and len(res) == n and all(_same(x, w) for x, w in zip(res, want)))
+            impl.append(['ok', [[_tok(row) for row in np.asarray(x)] for x in res]] if st == 'ok' else ['err', _kind(res)])
+        else:
+            k = r.choice([0, 1, n, n + 1, r.randint(1, max(n, 1))])
+            accs.append([gi, 'nth', k, act])
+            st, res = _try(g.get_coordinates, k, act)
+            if act != ct or not 1 <= k <= n:
+                good = st != 'ok'
+            else:
+                good = st == 'ok' and _same(res, want[k - 1])
+            impl.append(['ok', [_tok(row) for row in np.asarray(res)]] if st == 'ok' else ['err', _kind(res)])
+        if not good and bad is None:
+            bad = (step, accs[-1])
+    case = dict(base, what='instance-history', accesses=accs)
+    ctx.case(path='annread/instance-history', instance_history_groups=len(groups), instance_history_len=len(accs),
+             nontrivial_key=('inst-hist', len(groups), len(accs), tuple(a[1] for a in accs[:4])))
+    if bad is not None:
+        ctx.fail(case, f'access {bad[0] + 1} of an interleaved history on one parsed instance ({bad[1]}) does not give what the stored input '
+                       f'says (own type: the data / refusal of an outside number; other type: refusal)', site='instance-history/annread')
+    reqs.append(('instHistory', {'via': ct, 'groups': [{'gtype': s['gtype'], 'enc': sv} for s, sv in zip(specs, svs)], 'accesses': accs}))
+    pending.append((dict(case, what='history', order='instance'), ('ok', impl)))
 
 
 # ------------------------------------------------------------------ group lookup
@@ -827,6 +904,7 @@ def _run_object(ctx, specs, ct, base, idx, r, reqs, pending, stream):
                 _observe_group(ctx, s, g, pname, ct, [], [], base)
         if pname == 'annread':
             _observe_lookup(ctx, specs, a2, pname, base, ctx.rng(stream + '-p', idx), reqs, pending)
+            _instance_history(ctx, specs, annread(io.BytesIO(blob)), ct, base, ctx.rng(stream + '-ih', idx), reqs, pending)
     # group-level parse without the file
     for s, g in zip(specs, groups):
         if (idx + s['number']) % 2 == 0:
